@@ -164,7 +164,11 @@ func (w *FileWatcher) watchLoop(ctx context.Context) {
 		case <-ticker.C:
 			changes := w.detectChanges()
 			if len(changes) > 0 {
+				// The debounce callback takes and clears pendingChanges under
+				// w.mu on its own goroutine.
+				w.mu.Lock()
 				pendingChanges = append(pendingChanges, changes...)
+				w.mu.Unlock()
 
 				// Reset debounce timer
 				if debounceTimer != nil {
